@@ -673,6 +673,23 @@ func checkReadTotal(c *core.Ctx, blob []byte, pi *core.PanicInfo, alloc uint64) 
 		runtime.KeepAlive(keep)
 		c.Event("cumulative allocation %d bytes on a %d-byte input: peak re-measured", alloc, len(blob))
 		if peak > core.AllocBudget(len(blob)) {
+			// The reader hands back one independent exchange - own copy of the body, own header
+			// map - per index location, so a file whose index designates the same response
+			// many times (aliased b2 entries, or a b1 variants entry with thousands of
+			// locations) is inflated to the SUM of the listed lengths: a genuine defect of the
+			// unchanged tree under C10 (known_findings.txt). Memory that this sum explains is
+			// reported under its own fingerprint; anything beyond it is the ordinary violation.
+			if p, rj := refbundle.Parse(blob); rj == nil {
+				listed := uint64(0)
+				for _, e := range p.Index {
+					for _, l := range e.Locs {
+						listed += l.Len
+					}
+				}
+				if listed > 4*uint64(len(blob)) && peak <= core.AllocBudget(len(blob))+4*listed {
+					c.Violation("alloc-by-aliased-index-entries", "bundle.Read", "bundle.Read needs %d bytes of live memory at its peak on a %d-byte input whose index lists locations of %d bytes in all (the same response designated many times: one copy per location)", peak, len(blob), listed)
+				}
+			}
 			c.Violation("alloc", "bundle.Read", "bundle.Read needs %d bytes of live memory at its peak (%d allocated in all) on a %d-byte input (budget %d)", peak, alloc, len(blob), core.AllocBudget(len(blob)))
 		}
 		c.Probe("cumulative allocation above the budget, peak within it")
